@@ -51,6 +51,25 @@ func setupProcess() {
 	raft.SetLogger(&raft.DefaultLogger{Logger: log.New(io.Discard, "", 0)})
 	os.RemoveAll(pidDir())
 	os.MkdirAll(pidDir(), 0o750)
+	sweepStale()
+}
+
+// sweepStale removes scratch directories of worker processes that died (a
+// killed node takes its worker down before Cleanup can run).
+func sweepStale() {
+	ents, err := os.ReadDir("/dev/shm")
+	if err != nil {
+		return
+	}
+	for _, e := range ents {
+		var pid int
+		if n, _ := fmt.Sscanf(e.Name(), "verif-e2-%d", &pid); n != 1 || pid == os.Getpid() {
+			continue
+		}
+		if _, err := os.Stat(fmt.Sprintf("/proc/%d", pid)); os.IsNotExist(err) {
+			os.RemoveAll("/dev/shm/" + e.Name())
+		}
+	}
 }
 
 // Cleanup removes the per-process scratch directory.
@@ -295,6 +314,23 @@ func (e *Engine) Minimise(env *core.Env, c *core.Case) *core.Case {
 	}
 	budget += 150
 	tape = core.MinimiseTape(tape, func(t []uint32) bool { return try(sc, t) })
+	// a simpler schedule often lets more of the programs go
+	budget += 100
+	for i := len(sc.Clients) - 1; i >= 0 && len(sc.Clients) > 1; i-- {
+		cand := cloneScenario(sc)
+		cand.Clients = append(cand.Clients[:i], cand.Clients[i+1:]...)
+		if try(cand, tape) {
+			sc = cand
+		}
+	}
+	for i := range sc.Clients {
+		cmds := core.DDMin(sc.Clients[i].Cmds, func(ss []Cmd) bool {
+			cand := cloneScenario(sc)
+			cand.Clients[i].Cmds = ss
+			return try(cand, tape)
+		})
+		sc.Clients[i].Cmds = cmds
+	}
 	body, _ := json.Marshal(sc)
 	out := *c
 	out.Body = body
@@ -361,6 +397,12 @@ func runInChild(env *core.Env, c *core.Case, testName string) (sig, msg string, 
 		cmd.Env = append(cmd.Env, "GORACE="+g+" atexit_sleep_ms=0")
 	}
 	out, _ := cmd.CombinedOutput()
+	if cmd.Process != nil {
+		os.RemoveAll(fmt.Sprintf("/dev/shm/verif-e2-%d", cmd.Process.Pid)) // a dead child cannot clean up
+	}
+	if cmd.ProcessState == nil {
+		return "", "", false, fmt.Errorf("cannot start the child process")
+	}
 	rc := cmd.ProcessState.ExitCode()
 	switch rc {
 	case 0:
@@ -452,6 +494,9 @@ func minimiseInChild(env *core.Env, c *core.Case, testName string) *core.Case {
 	cmd.Env = append(os.Environ(), "VERIF_MODE=minimise", "VERIF_CASE="+casePath, "VERIF_OUT="+outPath, "VERIF_JOURNAL=", "VERIF_DETLOG=", "VERIF_TRACEDIR=",
 		"VERIF_KNOWN="+strings.Join(known, "\n"))
 	cmd.CombinedOutput()
+	if cmd.Process != nil {
+		os.RemoveAll(fmt.Sprintf("/dev/shm/verif-e2-%d", cmd.Process.Pid))
+	}
 	if cmd.ProcessState == nil || cmd.ProcessState.ExitCode() != 10 {
 		return c
 	}
